@@ -739,10 +739,10 @@ impl Model {
                 if st == status::OK {
                     let client = req.cas != 0;
                     self.install(&key, req.value.clone(), Some(flags), cas, Kind::Add, true, client, lo, hi, ttl, false);
-                } else if req.cas != 0 && (st == status::NOT_FOUND || st == status::EXISTS) {
-                    if p == Presence::Expired {
-                        // a CAS-carrying add against an uncollected expired record: open
-                    }
+                } else if req.cas != 0 && st == status::NOT_FOUND {
+                    // a CAS-carrying add of a missing key may be refused with 'not found'
+                    // (as a CAS-carrying set may). 'key exists' is not open: add treats an
+                    // expired item as absent (C05) whether or not it carries a CAS.
                 } else if p == Presence::Expired && st == status::EXISTS {
                     self.observed_phantom(&key, p, "add");
                 } else {
